@@ -123,7 +123,7 @@ pub fn attr_lists(alpha: &[Op], n: usize) -> Vec<Vec<Op>> {
 pub fn run(ctx: &Ctx) -> Report {
     let tid0: u128 = ((ctx.seeded(5) as u128) << 16 | 0xABCD) & MASK96;
     let alpha = attr_alphabet(tid0);
-    let depth = ctx.tier.pick(2, 3);
+    let depth = ctx.tier.pick(3, 4);
     let lists = attr_lists(&alpha, depth);
     let n_lists = lists.len();
     let hs = headers(ctx);
